@@ -116,16 +116,15 @@ theorem runStack_lifo : ∀ (ids : List Nat) (fuel : Nat) (ts : TS),
       have := ih n { ts with cleanups := is.map (fun i => CTree.emit i .done) } rfl (by simp at hl; omega)
       simp only [CTree.run]
       simp only [this.1, this.2]
-      simp
+      simp [pickErr]
 
 /-- a panicking callback does not prevent the remaining ones from running, and the panic is
-    reported (the last panic wins) -/
+    reported (the last failure wins; invalid data never replaces a failure) -/
 theorem runStack_after_panic (e : Err) (rest : List CTree) (fuel : Nat) (ts : TS) (h : ts.cleanups = .throw e :: rest) :
     (runStack (fuel + 1) ts).evs = (runStack fuel { ts with cleanups := rest }).evs ∧
     (runStack (fuel + 1) ts).ts = (runStack fuel { ts with cleanups := rest }).ts ∧
-    (runStack (fuel + 1) ts).err = (match (runStack fuel { ts with cleanups := rest }).err with | some e' => some e' | none => some e) := by
+    (runStack (fuel + 1) ts).err = pickErr (some e) (runStack fuel { ts with cleanups := rest }).err := by
   simp only [runStack, h, CTree.run, List.nil_append]
-  refine ⟨trivial, trivial, ?_⟩
-  cases (runStack fuel { ts with cleanups := rest }).err <;> rfl
+  exact ⟨trivial, trivial, trivial⟩
 
 end Rapid
